@@ -149,7 +149,63 @@ def real_sweep(ctx, n):
         mixed = i % 2 == 1
         agg = ctx.rng.choice(lr.AGGS) if (mixed or i % 4 == 0) else None
         case = lr.g_case(ctx.rng, max_src=3, max_sens=4 if i % 3 == 0 else 2, maxlen=4, mixed_shapes=mixed)
+        if i % 5 == 4:       # the same kind of scene in mm, um and km
+            case = lr.scale_case(case, lr.LENGTH_SCALES[(i // 5) % 3])
+            ctx.bump("real:length-scale")
         check_real(ctx, case, agg)
+    # other public entry points and observer formats; call -> sensor mutation -> call histories
+    for i in range(max(12, n // 6)):
+        case = lr.g_case(ctx.rng, max_src=2, max_sens=3, maxlen=3)
+        field = "BHJM"[i % 4]
+        cache = {}
+        for kind in ("sensor-method", "observer-collection", "positions", "dataframe"):
+            try:
+                X = lr.entry_variants(case, field, kind)
+            except Exception as e:   # pylint: disable=broad-except
+                ctx.impl_fail(f"sensor-spec/entry:{kind}:raises", f"{kind} form of get{field} raised {type(e).__name__}: {e}",
+                              {"kind": "real-entry", "entry": kind, "field": field, "case": case})
+                continue
+            if X is None:
+                continue
+            ctx.bump("real:entry:" + kind)
+            mm = lr.element_mismatches(case, field, B=X, cache=cache)
+            if mm:
+                l, m, k, p, got, one = mm[0]
+                ctx.impl_fail(f"sensor-spec/entry:{kind}:{sensor_kind(case['sensors'][k])}",
+                              f"get{field} through `{kind}`: element (source {l}, path {m}, sensor {k}, pixel {p}) = {got}, the "
+                              f"single static sensor pixel alone sees {one}",
+                              {"kind": "real-entry", "entry": kind, "field": field, "case": case})
+        try:
+            h = lr.history_mismatch(ctx.rng, case, field)
+        except Exception as e:   # pylint: disable=broad-except
+            h = f"raised {type(e).__name__}: {e}"
+        ctx.bump("real:history")
+        if h:
+            ctx.impl_fail("sensor-spec/history", "call -> pixel / handedness / position setters -> call differs from the call on "
+                          "fresh twins: " + h[:400], {"kind": "real-history", "field": field, "case": case})
+
+
+def observers_as_collections(ctx, cases, limit):
+    """exact: the same sensors handed over as (nested) Collections, with a source among the children that must
+    be ignored as observer, give the same result as the plain sensor list"""
+    import magpylib as magpy
+    done = 0
+    for c in cases:
+        if done >= limit:
+            break
+        if any("dup" in s for s in c["sensors"]) or len(c["sensors"]) < 2:
+            continue
+        done += 1
+        ref = l2.impl_run(c)
+        srcs, sens = l2.build(c)
+        extra = l2.build_leaf({"key": 1, "tag": [1], "pos": [[9, 9, 9]], "ori": [octa.IDENT]})
+        obs = [magpy.Collection(sens[0], extra), magpy.Collection(magpy.Collection(*sens[1:]))]
+        B = magpy.getB(srcs, obs, squeeze=False, sumup=c["sumup"], pixel_agg=l2.AGG[c["agg"]])
+        got = octa.ints(B.reshape(B.shape[0], B.shape[1], B.shape[2], -1, 3))
+        ctx.count("observer_collection_cases")
+        if got != ref:
+            ctx.impl_fail("sensor-spec/observers-in-collections", "sensors passed inside (nested) Collections give a different "
+                          "result than the same sensors passed as a list", {"kind": "exact", "case": c})
 
 
 # ------------------------------------------------------------------ run
@@ -201,11 +257,19 @@ def run(ctx):
     cases = run_guarded(ctx, corr, "C04 correspondence") or []
     big = bool(ctx.broken)
     run_guarded(ctx, lambda: exact_oracle(ctx, cases, ctx.n(60, 600) * (5 if big else 1)), "C04 exact oracle")
-    run_guarded(ctx, lambda: real_sweep(ctx, ctx.n(120, 2000) * (4 if big else 1)), "C04 real-class sweep")
+    run_guarded(ctx, lambda: observers_as_collections(ctx, cases, ctx.n(60, 600)), "C04 observers in collections")
+    run_guarded(ctx, lambda: real_sweep(ctx, ctx.n(100, 2000) * (4 if big else 1)), "C04 real-class sweep")
 
 
 def replay(ctx, obj):
     rp = obj.get("replay", obj)
+    if rp.get("kind") == "real-entry":
+        X = lr.entry_variants(rp["case"], rp["field"], rp["entry"])
+        mm = lr.element_mismatches(rp["case"], rp["field"], B=X)
+        print("replay:", "property holds" if not mm else f"FAILS: element {mm[0][:4]} = {mm[0][4]}, alone = {mm[0][5]}")
+        if mm:
+            print("VIOLATION property=C04 replay=given")
+        return 1 if mm else 0
     if rp.get("kind") == "real":
         mm = lr.sensor_mismatch(rp["case"], rp["field"], rp.get("agg"))
         print("replay:", "property holds on this call" if mm is None else f"FAILS at (source, path, sensor)={mm[:3]}: {mm[3][:400]}")
